@@ -233,6 +233,34 @@ def run_real_ids(ctx, n, with_model=True):
             ctx.violation(f"id {ident!r}: weights and their running totals give different results", {"id": ident, "results": r})
 
 
+def big_int_boundaries(ctx, n):
+    """integer weights far above 2^53 whose first running total is odd (not a binary64 value) and exactly one above the unit's scaled
+    position: Python compares the float position with the int total exactly, so the unit is in the FIRST group — in the weights form and
+    in the running-totals form alike (converting the totals to float first would round the boundary onto the position)"""
+    import hashlib
+    from pyab_experiment.binning import binning
+    rng = ctx.rng
+    for k in range(n):
+        ident = "unit-%d" % rng.randrange(10 ** 9)
+        h = int.from_bytes(hashlib.md5(ident.encode("utf-8")).digest()[:4], "big")
+        s_ = rng.choice([22, 23, 25, 30, 40, 60])
+        if h == 0:
+            continue
+        a = h * 2 ** s_ + 1
+        ws = [a, 2 ** (32 + s_) - a]
+        pop = ["first", "second"]
+        outs = {"weights": common.outcome_of(lambda: binning.deterministic_choice(ident, pop, weights=ws)),
+                "cum_weights": common.outcome_of(lambda: binning.deterministic_choice(ident, pop, cum_weights=[a, 2 ** (32 + s_)])),
+                "weights-tuple": common.outcome_of(lambda: binning.deterministic_choice(ident, tuple(pop), weights=tuple(ws)))}
+        ctx.case(("bigint", ident, s_), True)
+        ctx.count("variant:big-int-boundary")
+        for form, out in outs.items():
+            if out != {"g": {"s": "first"}}:
+                ctx.violation(f"id {ident!r} has position {h}/2^32; with integer weights [{h}*2^{s_}+1, 2^{32 + s_}-({h}*2^{s_}+1)] ({form}) the scaled position {h}*2^{s_} is below "
+                              f"the first running total, so the first item is due: got {json.dumps(out)}", {"id": ident, "h": h, "shift": s_, "form": form, "impl": out})
+                break
+
+
 def run(ctx):
     n = N[ctx.tier]
     if ctx.obligation_breaks or ctx.tie_breaks:
@@ -245,6 +273,7 @@ def run(ctx):
     run_contract(ctx, n)
     run_real_ids(ctx, max(30, n // 8))
     run_random_branch(ctx, max(20, n // 8))
+    big_int_boundaries(ctx, max(60, n // 10))
     choicelib.run_stateful(ctx, 40 if ctx.tier == 'quick' else 600)
 
 
